@@ -51,7 +51,8 @@ TraceInit ==
     /\ pre = [h |-> <<>>, w |-> <<>>, t |-> "", acc |-> FALSE,
               c |-> wchain,     \* the synced chain as of the last commit (what a read transaction opened now sees)
               qo |-> FALSE,     \* a query of the query thread is in flight
-              q |-> {}]         \* the committed chains it may have read: the one at its start and every one committed since
+              q |-> {},         \* the committed chains it may have read: the one at its start and every one committed since
+              rb |-> <<>>]      \* the synced chain when the process died (what a restart's catch-up starts from)
 
 (* ---------------------------------------------------- the recorded projection *)
 \* the recorded projection equals the (primed = current, after the step) state
@@ -193,7 +194,36 @@ RemoveT(w) ==
     /\ status' = [status EXCEPT ![w] = "removing"]
     /\ tasks' = Append(tasks, <<"remove", w>>)
     /\ UNCHANGED <<chainVars, wchain, pend, wmem, memp, wexp, up, cursor, faulted>>
-EvApi == /\ Consume /\ Ev.ev = "commit" /\ Ev.role = "A"
+(* ------------------------------------------------------------ crash and restart *)
+\* "Crash": the harness froze the wallet database at whatever moment that was - also in the middle of a step, whose
+\* commit then fails - and logged this line under the mutex of the commit hook, so no commit line of the dead instance
+\* follows.  A branch in which TLC had already taken the silent step of an update that never committed carries a
+\* state the database does not have; it dies at the next commit line.
+EvCrash == /\ Consume /\ Ev.ev = "Crash"
+           /\ IF up THEN Crash ELSE UNCHANGED vars     \* a restart that dies during its catch-up: nothing volatile is left
+           /\ hst' = "down" /\ wst' = "down"
+           /\ pre' = [pre EXCEPT !.rb = wchain, !.qo = FALSE, !.q = {}]
+\* Start's catch-up: one processConnectedBlock per height, each its own commit (RestartCrash(k) = the first k of them)
+EvRestartCommit ==
+    /\ Consume /\ Ev.ev = "commit" /\ Ev.role = "A" /\ Ev.op = "Restart" /\ ~up /\ hst = "down"
+    /\ CatchUpSteps(wchain) > 0
+    /\ LET r == CatchUp(wchain, pend, 1) IN
+         /\ wchain' = r[1] /\ pend' = r[2]
+         /\ cursor' = CursorAfter(wchain, r[1])
+         /\ DigestIn(Ev, r[1], status, cursor', r[2])
+         /\ NoteCommit(r[1])
+    /\ UNCHANGED <<chainVars, wmem, memp, wexp, up, status, tasks, faulted, hst, wst>>
+\* Start has returned: the catch-up is complete, the goroutines run, unfinished tasks are queued again
+EvRestarted ==
+    /\ Consume /\ Ev.ev = "restarted" /\ ~up /\ hst = "down" /\ CatchUpSteps(wchain) = 0
+    /\ up' = TRUE
+    /\ wmem' = (IF wchain = <<>> THEN 0 ELSE Last(wchain))
+    /\ wexp' = NewBlocks(pre.rb, wchain)
+    /\ tasks' \in Perms(TaskSet)
+    /\ hst' = "top" /\ wst' = "top"
+    /\ UNCHANGED <<reorg, parent, content, best, pool, ntfB, ntfT, memp, wchain, pend, status, cursor, faulted, pre>>
+
+EvApi == /\ Consume /\ Ev.ev = "commit" /\ Ev.role = "A" /\ Ev.op \in {"Import", "Remove"}
          /\ \/ Ev.op = "Import" /\ Ev.nth = 1 /\ ImportT(Ev.w)
             \/ Ev.op = "Remove" /\ Ev.nth = 1 /\ RemoveT(Ev.w)
             \/ Ev.nth > 1 /\ UNCHANGED vars           \* further commits of the same call change nothing the model sees
@@ -224,7 +254,7 @@ TraceNext == \/ EvQBegin \/ EvQEnd
              \/ EvHBlock \/ StepBlock \/ EvHTx \/ StepTx \/ EvCommitH \/ EvRollbackH
              \/ EvHSuspended \/ EvHResumed \/ EvHTop \/ EvFaultH \/ EvFaultW \/ EvRollbackWF
              \/ EvWSuspend \/ StepWorker \/ EvCommitW \/ EvRollbackW \/ EvWResume \/ EvWResumed \/ EvWRound \/ EvWTop
-             \/ EvApi
+             \/ EvApi \/ EvCrash \/ EvRestartCommit \/ EvRestarted
 TraceNext2 == TraceNext /\ UNCHANGED <<hist, flags>>
 TraceSpec == TraceInit /\ [][TraceNext2]_<<tvars, hist, flags>>
 
